@@ -26,6 +26,17 @@ Definition adjust (fin zero limited errLeAcc:bool) (cand h:T) (minS maxS:option 
   let n5 := adj_clamp (adj_pre fin zero limited errLeAcc cand h) h minS maxS in
   (n5, nleb K h n5).
 
+(** "within tolerance" as the projections are asked to judge it: ProjectOptions::UseInfinityNorm (set from
+    Integrator::setUseInfinityNorm by realizeAndProjectKinematicsWithThrow and by the two local projections) selects
+    the infinity norm of the (weighted) constraint errors, otherwise the RMS norm.  The norm is a parameter of the
+    projection oracle's contract: [advProj]/[intProj] of C19_Model mean "passed projection in THIS norm". *)
+Definition within_inf (errs:list T) (tol:T) : bool := forallb (fun e => nleb K (nabs K e) tol) errs.
+Definition sumsq (errs:list T) : T := fold_right (fun e a => nadd K (nmul K e e) a) (n0 K) errs.
+Definition within_rms (errs:list T) (tol:T) : bool :=           (* sqrt(sum e^2 / n) <= tol *)
+  nleb K (sumsq errs) (nmul K (nofZ K (Z.of_nat (length errs))) (nmul K tol tol)).
+Definition within_tol (useInfinityNorm:bool) (errs:list T) (tol:T) : bool :=
+  if useInfinityNorm then within_inf errs tol else within_rms errs tol.
+
 (** one trial step: what attemptODEStep / the projections did and what the error norm looked like *)
 Record attempt := { a_conv : bool;       (* attemptODEStep returned true without throwing *)
                     a_big : bool;        (* errNorm > 2^errOrder * accuracy: "not worth projecting" *)
